@@ -76,7 +76,8 @@ void conf_register(int count, int override_null)
 static int ref_max_depth, ref_include_depth, ref_max_include;
 static int ref_open_idx;        /* number of fopen attempts so far (fault script cursor) */
 static const op_t *ref_faults;
-static int ref_deliver_unterminated;
+static int ref_deliver_unterminated, ref_expanded, ref_entry_fs;
+static int ref_include_capped;
 static int ref_unknown, ref_surplus_end, ref_eof_nonl, ref_include_fail, ref_overlong, ref_unreadable, ref_empty_file;
 
 static unsigned long ref_call(int id, int kind, const char *text, unsigned long sin)
@@ -129,7 +130,8 @@ static void ref_line(char *s)
         while (*w && isspace((unsigned char)*w)) w++;
         if (!strncasecmp(w, "include ", 8)) {
             char *f = ref_word2(s + 1);
-            if (f) { char fn[256]; snprintf(fn, sizeof(fn), "%s", f); ref_file(fn, 0); } else { ref_include_fail++; }
+            if (f && ref_entry_fs + 1 + ref_include_depth >= 255) { ref_include_fail++; ref_include_capped++; }      /* the 8-bit file index is used up: the directive is ignored, nothing is opened */
+            else if (f) { char fn[256]; snprintf(fn, sizeof(fn), "%s", f); ref_file(fn, 0); } else { ref_include_fail++; }
         }
         return;                       /* other %-lines are expanded for side effects only, never delivered */
     }
@@ -156,12 +158,22 @@ static void ref_line(char *s)
         return;
     }
     e = s;
+    if (strpbrk(s, "$~\\%'\"`")) {
+        /* "values expanded": what the handler receives is the expansion of the line */
+        int dc = 0;
+        char *x = conf_ref_expand(s, &dc);
+        if (dc) { free(x); sim_skip("expansion-left-open-by-the-statement"); }
+        stk[depth].state = ref_call(stk[depth].id, 0, x, stk[depth].state);
+        free(x);
+        ref_expanded++;
+        return;
+    }
     stk[depth].state = ref_call(stk[depth].id, 0, e, stk[depth].state);
 }
 static void ref_file(const char *path, int is_root)
 {
     const unsigned char *data; size_t len, pos = 0;
-    char line[512];
+    static char line[21000];
     int first = 1, how;
     if (!(how = ref_open_ok())) { ref_include_fail++; return; }
     if (!conf_tree_get(path, &data, &len)) { ref_include_fail++; return; }     /* absent, or a directory: nothing can be read from it */
@@ -192,14 +204,15 @@ static void ref_file(const char *path, int is_root)
 #define MAXFILES 300
 static struct { char path[128]; const unsigned char *data; size_t len; } tree[MAXFILES];
 static int ntree;
-void conf_tree_reset(void) { ntree = 0; }
+const char *conf_tree_prefix = "";
+void conf_tree_reset(void) { ntree = 0; conf_tree_prefix = ""; }
 void conf_tree_add(const char *path, const unsigned char *data, size_t len)
 {
     char full[256];
     if (ntree >= MAXFILES) return;
     snprintf(tree[ntree].path, sizeof(tree[ntree].path), "%s", path);
     tree[ntree].data = data; tree[ntree].len = len; ntree++;
-    snprintf(full, sizeof(full), "%s%s", path[0] == '/' ? "" : "/cfg/", path);
+    snprintf(full, sizeof(full), "%s%s%s", path[0] == '/' ? "" : "/cfg/", path[0] == '/' ? "" : conf_tree_prefix, path);
     simfs_add_file(full, data, len, 0644);
 }
 int conf_tree_get(const char *path, const unsigned char **data, size_t *len)
@@ -244,7 +257,9 @@ void conf_env_setup(const plan_t *p)
     if (v1 > 0 && v1 <= 70000) { char *b = malloc((size_t)v1 + 1); memset(b, 'w', (size_t)v1); b[v1] = 0; setenv("V1", b, 1); free(b); probe_hit("long_env_value"); }
     if (hl > 0 && hl <= 70000) { char *b = malloc((size_t)hl + 3); b[0] = '/'; memset(b + 1, 'h', (size_t)hl); b[hl + 1] = 0; setenv("HOME", b, 1); free(b); probe_hit("long_home"); }
     if (td == 1) setenv("TMPDIR", "/tmp", 1);
-    else if (td >= 2) {
+    else if (td == 4) { setenv("TMP", "/tmp", 1); probe_hit("tmp_variable_only"); }                 /* the second choice, with the first one unset */
+    else if (td == 5) { setenv("TMP", "/nonexistent", 1); setenv("TMPDIR", "/tmp", 1); }
+    else if (td == 2 || td == 3) {
         /* a TMPDIR so long that "<dir>/<template>XXXXXX" just fits, or does not fit, the 256-byte name buffer; td==3: it does not exist */
         long n = plan_get(p, "tmpdir.len", 240);
         char b[400];
@@ -291,7 +306,8 @@ static void run_reference(const char *name, op_t *o, int entry_ctx, int ng, unsi
     ref_deliver_unterminated = deliver;
     depth = entry_ctx; ref_faults = o; ref_open_idx = 0;
     ref_max_depth = ref_max_include = ref_include_depth = 0;
-    ref_unknown = ref_surplus_end = ref_eof_nonl = ref_include_fail = ref_unreadable = ref_empty_file = 0;
+    ref_unknown = ref_surplus_end = ref_eof_nonl = ref_include_fail = ref_unreadable = ref_empty_file = ref_expanded = ref_include_capped = 0;
+    ref_entry_fs = simacc_fstate_depth();
     nwant = ng;                      /* align the two traces for a second parse in the same run */
     for (int q = 0; q < ng; q++) want[q] = got[q];
     tok_counter = tok_at_entry;
@@ -305,6 +321,8 @@ static void exec_c09(const plan_t *p)
     int entry_ctx, entry_fs;
     conf_reset_mirror(); conf_tree_reset();
     simfs_add_dir("/cfg"); simfs_add_dir("/cfg/sub"); simfs_set_cwd("/cfg");
+    if (plan_get(p, "altdir", 0)) { simfs_add_dir("/cfg/alt"); simfs_add_dir("/cfg/alt/sub"); conf_tree_prefix = "alt/"; }     /* every file lives in /cfg/alt and is found through the search path */
+    conf_env_setup(p);
     spifconf_init_subsystem();
     check_indices = 1;
     for (int i = 0; i < p->nops; i++) {
@@ -318,7 +336,7 @@ static void exec_c09(const plan_t *p)
         } else if (!strcmp(k, "ctx")) conf_register((int)o->a[0], (int)o->a[1]);
         else if (!strcmp(k, "parse") && o->has_s) {
             char *name = sim_malloc(o->slen + 1), *ret;
-            int balanced;
+            int balanced, parse_ok = 0;
             memcpy(name, o->s, o->slen); name[o->slen] = 0;
             entry_ctx = simacc_ctx_depth(); entry_fs = simacc_fstate_depth();
             /* reference first (it only reads the tree), then the real parser */
@@ -327,9 +345,11 @@ static void exec_c09(const plan_t *p)
                 int ng = ngot;
                 memcpy(stk_save, stk, sizeof(stk));
                 run_reference(name, o, entry_ctx, ng, tok_at_entry, 0);
-                if (o->a[0]) ret = (char *)spifconf_parse((spif_charptr_t)name, (spif_charptr_t)(o->a[0] == 2 ? "/cfg" : NULL), (spif_charptr_t)"/nonexistent:/cfg:/tmp");
+                if (plan_get(p, "altdir", 0)) { ret = (char *)spifconf_parse((spif_charptr_t)name, (spif_charptr_t)NULL, (spif_charptr_t)"/x:/cfg/alt"); probe_hit("root_found_through_search_path"); }
+                else if (o->a[0]) ret = (char *)spifconf_parse((spif_charptr_t)name, (spif_charptr_t)(o->a[0] == 2 ? "/cfg" : NULL), (spif_charptr_t)"/nonexistent:/cfg:/tmp");
                 else ret = (char *)spifconf_parse((spif_charptr_t)name, NULL, NULL);
                 tr_printf("parse %s -> %s calls=%d", name, ret ? ret : "NULL", ngot);
+                parse_ok = ret != NULL;
                 if (ret) sim_free(ret);
                 if (ref_eof_nonl) {
                     /* a last line without a newline: accepted whether it is delivered or dropped, as long as the parse treats every such line the same way */
@@ -348,7 +368,8 @@ static void exec_c09(const plan_t *p)
             if (simacc_fstate_depth() != entry_fs) sim_fail("INVARIANT(file-stack)", "file stack index is %d after parsing, %d before", simacc_fstate_depth(), entry_fs);
             if (balanced && simacc_ctx_depth() != entry_ctx) sim_fail("INVARIANT(context-stack)", "blocks are balanced but the context stack index is %d after parsing, %d before", simacc_ctx_depth(), entry_ctx);
             if (!balanced && simacc_ctx_depth() != depth) sim_fail("INVARIANT(context-stack)", "context stack index is %d after parsing, the reference is at depth %d", simacc_ctx_depth(), depth);
-            if (strcmp(simfs_cwd(), "/cfg")) sim_fail("INVARIANT(cwd)", "working directory is %s after parsing", simfs_cwd());
+            if (parse_ok && strcmp(simfs_cwd(), "/cfg")) sim_fail("INVARIANT(cwd)", "working directory is %s after a successful parse", simfs_cwd());
+            if (!parse_ok) simfs_set_cwd("/cfg");
             { static const int marks[] = { 20, 40, 80, 160 }; static const char *pn[] = { "depth_crossed_20", "depth_crossed_40", "depth_crossed_80", "depth_crossed_160" };
               static const char *pi[] = { "include_depth_crossed_10", "include_depth_crossed_20", "include_depth_crossed_40", "include_depth_crossed_80", "include_depth_crossed_160" };
               static const int imarks[] = { 10, 20, 40, 80, 160 };
@@ -358,6 +379,8 @@ static void exec_c09(const plan_t *p)
             if (ref_surplus_end) probe_hit("surplus_end");
             if (ref_eof_nonl) probe_hit("eof_without_newline");
             if (ref_include_fail) probe_hit("include_open_failed");
+            if (ref_expanded) probe_hit("delivered_value_was_expanded");
+            if (ref_include_capped) probe_hit("include_refused_at_depth_255");
             if (ref_unreadable) probe_hit("file_opened_but_unreadable");
             if (ref_empty_file) probe_hit("empty_file");
             if (!balanced) probe_hit("unbalanced_input");
@@ -380,6 +403,7 @@ static void gb_add(const char *fmt, ...)
     va_end(ap);
     if (n > 0 && gbuf_len + (size_t)n < sizeof(gbuf)) gbuf_len += (size_t)n;
 }
+static int gen_expansions, gen_longlines;
 static void gen_text_line(rng_t *r)
 {
     static const char al[] = "abcdefgxyzEB0123 _=.,:/-";
@@ -389,6 +413,21 @@ static void gen_text_line(rng_t *r)
     t[n] = 0;
     if (t[0] == ' ') t[0] = 'q';
     if (rng_chance(r, 1, 12)) { static const char *tricky[] = { "begin", "ending now", "bend", "e", "b", "End", "Begin c1", "endx" }; snprintf(t, sizeof(t), "%s", tricky[rng_below(r, 8)]); }
+    else if (gen_expansions && rng_chance(r, 1, 3)) {
+        /* a value that has to be expanded before it is delivered */
+        static const char *ex[] = { "v=$V1", "p ${V1}/x", "h $(HOME) t", "~/rc", "a\\tb", "q '$V1 ~' r", "d \"~ $V1\" e", "u $NOSUCH w", "m ${EMPTY}n", "k \\$V1" };
+        snprintf(t, sizeof(t), "%s", ex[rng_below(r, 10)]);
+    }
+    else if (gen_longlines && rng_chance(r, 1, 6)) {
+        /* a long ordinary line: 254..257, 4095..4097 or 20478 characters */
+        static const int ll[] = { 254, 255, 256, 257, 4095, 4096, 4097, 20478 };
+        int L = ll[rng_below(r, 8)];
+        if (L + lead > 20478) L = 20478 - lead;          /* (with the newline: exactly what one read of the line buffer takes; beyond that the line counts as too long) */
+        gb_add("%*s", lead, "");
+        for (int i = 0; i < L && gbuf_len + 2 < sizeof(gbuf); i++) gbuf[gbuf_len++] = (char)('a' + i % 26);
+        gb_add("\n");
+        return;
+    }
     if (rng_chance(r, 1, 6)) {
         /* other kinds of surrounding whitespace: tabs, and a carriage return in front of the newline */
         gb_add("%s%s%s\n", lead ? "\t " : "", t, trail == 1 ? "\r" : trail ? " \t" : "");
@@ -404,7 +443,9 @@ static void gen_c09(plan_t *p, rng_t *r)
     plan_knob(p, "alloc.reuse", rng_range(r, 0, 2));
     plan_op(p, 0, "ctx", 2, (long)nreg, (long)rng_chance(r, 1, 5));
     if (regime == 0) { static const int d[] = { 9, 10, 11, 19, 20, 21, 39, 40, 41, 79, 80, 81, 159, 160, 161, 200, 255 }; target_depth = d[rng_below(r, 17)]; }
-    if (regime == 1) { static const int d[] = { 9, 10, 11, 19, 20, 21, 39, 41, 79, 81, 159, 161, 200 }; include_chain = d[rng_below(r, 13)]; }
+    if (regime == 1) { static const int d[] = { 9, 10, 11, 19, 20, 21, 39, 41, 79, 81, 159, 161, 200, 250, 253, 254, 255, 256 }; include_chain = d[rng_below(r, 18)]; }
+    gen_expansions = rng_chance(r, 1, 5); gen_longlines = rng_chance(r, 1, 6);
+    if (rng_chance(r, 1, 6)) plan_knob(p, "altdir", 1);
     nlines = rng_range(r, 3, 60);
     /* include chain: file k includes file k+1 (depth of the file stack) */
     for (int k = include_chain; k >= 1; k--) {
@@ -444,7 +485,7 @@ static void gen_c09(plan_t *p, rng_t *r)
         if (c < 40) gen_text_line(r);
         else if (c < 58 && open_depth < 250) { gb_add("%sbegin %s%d%s\n", rng_chance(r, 1, 5) ? "  " : "", rng_chance(r, 1, 10) ? "nosuch" : rng_chance(r, 1, 15) ? "null" : "c", rng_range(r, 1, nreg > 0 ? nreg : 1), rng_chance(r, 1, 6) ? " extra words" : ""); open_depth++; }
         else if (c < 76) { gb_add(rng_chance(r, 1, 4) ? "end junk here\n" : rng_chance(r, 1, 5) ? "  END\n" : "end\n"); if (open_depth) open_depth--; }
-        else if (c < 82) gb_add("# a comment %d\n", q);
+        else if (c < 82) gb_add("%s# a comment %d\n", rng_chance(r, 1, 3) ? (rng_chance(r, 1, 2) ? "  " : "\t") : "", q);
         else if (c < 86) gb_add(rng_chance(r, 1, 2) ? "\n" : "   \n");
         else if (c < 94) gb_add("%%include %s\n", rng_chance(r, 1, 8) ? "missing.cfg" : rng_chance(r, 1, 10) ? "empty.cfg" : rng_chance(r, 1, 12) ? "sub" : rng_chance(r, 1, 3) ? "sub/s2.cfg" : rng_chance(r, 1, 2) ? "f0.cfg" : "f1.cfg");
         else gb_add("<ignored line\n");
